@@ -32,7 +32,7 @@ DIMS = dict(
 	coll=COLLS,
 	container=['array', 'list', 'annotated-array', 'annotated-list'],
 	ids=['default', 'int64', 'ascii', 'unicode', 'bytes', 'uint8'],
-	meta=['none', 'unicode', 'nested-extra'],
+	meta=['none', 'unicode', 'nested-extra', 'empty-strings', 'mixed-empty'],
 	comp=['none', 'gzip0', 'gzip9', 'lzf', 'szip', 'gzip-default'],
 )
 FULL_K = [1, 4, 5, 8, 9, 16, 17, 32]
@@ -90,6 +90,10 @@ def make_meta(kind):
 	from gambit.sigs.base import SignaturesMeta
 	if kind == 'none':
 		return SignaturesMeta()
+	if kind == 'empty-strings':
+		return SignaturesMeta(id='', name='', version='', id_attr='', description='', extra={})
+	if kind == 'mixed-empty':
+		return SignaturesMeta(id='x', name='', version=None, id_attr='key', description='', extra=dict(a=''))
 	if kind == 'unicode':
 		return SignaturesMeta(id='ïd/1', name='näme 中', version='1.0.ü', id_attr='refseq_acc', description='line\nbreak "q" , ü', extra={})
 	return SignaturesMeta(id='x', name='n', version='2', id_attr='key', description=None,
